@@ -1199,3 +1199,40 @@ def gen_boost_inversion(rng):
                          ["watchdog"]])
     lines += ["deadlock", "watchdog"]
     return {"lines": lines, "note": "priority inheritance lifts one ring member above another before the watchdog looks"}
+
+
+def gen_long_history(rng, rounds=40):
+    """A LONG history on one system (one object's internal counters, logs and caches grow: `Watchdog.events`,
+    `total_boosts`, whatever a change may add with a size limit or a "seen before" memory): `rounds` times two or three
+    operations - ids drawn again and again from a small pool - form a ring that the watchdog (or a maintenance run)
+    handles, the survivors complete; every few rounds a lead-in operation, a clock step, an `exec` call.  The victim
+    rule, exactness and the no-leak clauses are judged after every line, so the 40th round is held to what the first is."""
+    strat = rng.choice(["priority", "priority", "oldest"])
+    lines = [f"cfg none none none {strat}", "res 1 0", "res 2 0", "res 3 0"]
+    pool = [1, 2, 3, 4, 5, 6]
+    for i in range(rounds):
+        k = rng.choice([2, 2, 3])
+        ops = rng.sample(pool, k)
+        prios = rng.sample(range(0, 8), k)
+        for o, p in zip(ops, prios):
+            lines.append(f"start {o} {p}")
+            if rng.random() < 0.5:
+                lines.append(f"adv {rng.choice([1, 2, 3])}")
+        for j, o in enumerate(ops):
+            lines.append(f"acq {o} {j + 1}")
+        order = list(range(k))
+        rng.shuffle(order)
+        for j in order:
+            lines.append(f"acq {ops[j]} {(j + 1) % k + 1}")
+        if i % 7 == 3:
+            lines += ["start 8 9", f"acq 8 {rng.randint(1, k)}"]
+        lines.append(rng.choice(["watchdog", "watchdog", "watchdog", "maint"]))
+        lines.append("deadlock")
+        for o in ops:
+            lines.append(rng.choice([f"complete {o}", f"complete {o}", f"abort {o}", f"kill {o}"]))
+        if i % 7 == 3:
+            lines.append("complete 8")
+        if i % 10 == 9:
+            lines.append("exec 7 3 1,2,3 bbbb n:ok yes")
+    lines += ["deadlock", "watchdog"]
+    return {"lines": lines, "note": f"long history ({rounds} rounds on one system)"}
